@@ -1,4 +1,5 @@
 import Propka.Model.Program
+import Propka.Model.ProfilesDriver
 /-! Model of the determinant table and the summary of the `.pka` file (`propka.output.get_determinant_section`,
     `get_summary_section`, `Group.get_determinant_string`, `get_determinant_for_string`, `get_summary_string`) at `Float`,
     with Python's fixed-point formatting (`'{:8.2f}'`: the exact binary value rounded half-to-even to the printed decimals).
@@ -67,10 +68,74 @@ def summaryRow (removePen : Bool) (g : AvrGroup Float) : String :=
 def summaryRows (removePen : Bool) (order : List String) (gs : List (AvrGroup Float)) : String :=
   String.join ((Groups.summaryRows order (fun (g : AvrGroup Float) => g.resType) gs).map (summaryRow removePen))
 
-/-- `conformation.chains` of the first conformation: chain identifiers of its own records in order of first appearance -/
-def chainsOf (recs : List Pdb.AtomRec) : List String :=
-  match Program.conformations recs with
-  | [] => []
-  | c :: _ => c.2.foldl (fun acc a => if acc.contains a.chain then acc else acc ++ [a.chain]) []
+/-- `conformation.chains` of the first conformation (the average conformation borrows it) -/
+def chainsOf (confs : List (Program.ConfOut Float)) : List String :=
+  match confs with
+  | (_, some (r, _)) :: _ => r.chains
+  | _ => []
+
+/-! ### the folding-energy and charge sections -/
+/-- `round(Decimal(x), 3)` in thousandths: the exact binary value rounded half-to-even -/
+def milli (x : Float) : Int :=
+  match Prot.ratParts x with
+  | none => 0
+  | some (m, e) =>
+    let num : Int := m * 1000
+    if e ≥ 0 then num * ((2 : Int) ^ e.toNat)
+    else
+      let d : Int := (2 : Int) ^ (-e).toNat
+      let q := num.fdiv d
+      let r := num - q * d
+      if 2 * r < d then q else if 2 * r > d then q + 1 else (if q % 2 == 0 then q else q + 1)
+
+/-- `'{:.2f}'.format(Decimal)` of a number given in thousandths (half-to-even in decimal) -/
+def fmtMilli2 (n : Int) : String :=
+  let q := n.fdiv 10
+  let r := n - q * 10
+  let h : Int := if r < 5 then q else if r > 5 then q + 1 else (if q % 2 == 0 then q else q + 1)
+  let a := h.natAbs
+  let fp := toString (a % 100)
+  (if n < 0 then "-" else "") ++ toString (a / 100) ++ "." ++ Py.str (List.replicate (2 - fp.length) '0') ++ fp
+
+def theLine : String := Py.str (List.replicate 104 '-')
+
+def tgroups (gs : List (AvrGroup Float)) : List (Profiles.TGroup Float) :=
+  gs.map fun g => ⟨g.q, g.acc.pka, g.model, g.titratable, g.acc.cb.map (·.value)⟩
+
+def fmt1 (x : Float) : String := fmtFixed 1 x
+
+/-- `get_folding_profile_section(protein, 'AVR', reference='neutral', window)` with the grid of the options -/
+def foldingSection (scaling : Float) (grid window : Float × Float × Float) (gs : List (AvrGroup Float)) : String :=
+  let tg := tgroups gs
+  let prof := Profiles.foldingProfile scaling true tg (Profiles.gridF grid.1 grid.2.1 grid.2.2)
+  let opt := Profiles.optimum 1e6 prof
+  let r80 := Profiles.rangeBelow (0.8 * opt.2) prof
+  let stab := Profiles.rangeBelow 0.0 prof
+  let start := milli window.1
+  let stop := milli window.2.1
+  let delta := milli window.2.2
+  let rows := prof.filterMap fun p =>
+    let n := milli p.1
+    if Profiles.windowRow start stop start delta n then some (Pipe.padL 6 (fmtMilli2 n) ++ Pipe.padL 10 (fmt2 p.2) ++ "\n") else none
+  theLine ++ "\n" ++ "Free energy of " ++ Pipe.padL 9 "folding" ++ " (kcal/mol) as a function of pH (using neutral reference)\n" ++
+  String.join rows ++ "\n" ++
+  (match opt.1 with
+   | none => "Could not determine pH optimum\n"
+   | some ph => "The pH of optimum stability is " ++ Pipe.padL 4 (fmt1 ph) ++ " for which the free energy is " ++ Pipe.padL 6 (fmt1 opt.2) ++ " kcal/mol at 298K\n") ++
+  (match r80.1, r80.2 with
+   | some a, some b => "The free energy is within 80 % of maximum at pH " ++ Pipe.padL 4 (fmt1 a) ++ " to " ++ Pipe.padL 4 (fmt1 b) ++ "\n"
+   | _, _ => "Could not determine pH values where the free energy is within 80 % of minimum\n") ++
+  (match stab.1, stab.2 with
+   | some a, some b => "The free energy is negative in the range " ++ Pipe.padL 4 (fmt1 a) ++ " - " ++ Pipe.padL 4 (fmt1 b) ++ "\n\n"
+   | _, _ => "Could not determine the pH-range where the free energy is negative\n\n")
+
+/-- `get_charge_profile_section(protein, 'AVR')` with the grid of the options; the pI over (0, 14) to 1e-4 -/
+def chargeSection (grid : Float × Float × Float) (gs : List (AvrGroup Float)) : String :=
+  let tg := tgroups gs
+  let prof := Profiles.chargeProfile tg (Profiles.gridF grid.1 grid.2.1 grid.2.2)
+  let pi := Profiles.getPi tg 0.0 14.0 1e-4 2.0 200
+  "Protein charge of folded and unfolded state as a function of pH\n" ++ "    pH  unfolded  folded\n" ++
+  String.join (prof.map fun r => Pipe.padL 6 (fmt2 r.1) ++ Pipe.padL 10 (fmt2 r.2.1) ++ Pipe.padL 8 (fmt2 r.2.2) ++ "\n") ++
+  "The pI is " ++ Pipe.padL 5 (fmt2 pi.1) ++ " (folded) and " ++ Pipe.padL 5 (fmt2 pi.2) ++ " (unfolded)\n"
 
 end Propka.Output
